@@ -102,6 +102,103 @@ theorem calls_only_ready (e : Ev) (c k tag : Nat) (r : Bool) (h : wire e = .inne
     r = true := by
   cases e <;> simp [wire] at h <;> exact h.2.2.2
 
+/-- A failed or (scripted) pending `poll_ready` of the wrapped service — answered to the caller by
+`RateLimiter::poll_ready` before any call exists — takes no permit and makes no admission either,
+whatever else is in flight or asleep on other handles at that moment. -/
+theorem readiness_error_takes_no_permit (cfg : Cfg) (s : State) (c : Nat) (err : Bool) :
+    (stepS cfg s (.turnedAway c err)).lim = s.lim ∧ (stepS cfg s (.turnedAway c err)).admits = s.admits := by
+  simp only [stepS]
+  split
+  · exact ⟨rfl, rfl⟩
+  · cases err <;> exact ⟨rfl, rfl⟩
+
+/-! ### Several services built from one layer value; presets
+
+"Through one rate limiter (all clones)": the limiter belongs to a *service* (`RateLimiter::new` makes it) and is
+shared by the clones of that service. A second service built from the same layer value (or from a clone of the
+layer) gets a limiter of its own, whose first window starts when that service is built. -/
+
+/-- Independence: an operation addressed to service `k` (a call on any handle of it, a poll or the cancellation
+of one of its callers) leaves the limiter and the callers of every other service exactly as they are. -/
+theorem services_independent (cfg : Cfg) (f : Fleet) (op : FOp) (k j : Nat)
+    (ht : target f op = some k) (hj : j ≠ k) :
+    lookup (fstep cfg f op).1.insts j = lookup f.insts j :=
+  fstep_other cfg f op k j ht hj
+
+/-- Every service of the fleet is one rate limiter in the sense of this file: its state is reached by a sequence
+of single-limiter operations (its own callers' operations and the passage of time since it was built), so every
+theorem above and in `C15` holds for it — in particular: -/
+theorem each_service_is_one_limiter (cfg : Cfg) (ops : List FOp) (k : Nat) (s : State)
+    (h : lookup (frun cfg ops).insts k = some s) : ∃ ops', s = run cfg ops' :=
+  frun_reach cfg ops k s h
+
+/-- … each service, separately, admits at most `limit_for_period` calls per window of its own (fixed window and
+sliding counter), and its admissions are exactly its limiter's grants … -/
+theorem each_service_windows (cfg : Cfg) (hk : cfg.kind = .fixed ∨ cfg.kind = .counter) (hL : 1 ≤ cfg.limit)
+    (hP : 1 ≤ cfg.period) (ops : List FOp) (k : Nat) (s : State) (h : lookup (frun cfg ops).insts k = some s) :
+    Cut cfg.period cfg.limit s.lim.wins ∧ flat s.lim.wins = s.admits.map Prod.snd := by
+  obtain ⟨ops', rfl⟩ := frun_reach cfg ops k s h
+  rcases hk with hk | hk
+  · exact fixed_windows cfg hk hL hP ops'
+  · exact counter_windows cfg hk hL hP ops'
+
+/-- … and, for the sliding log, any `limit_for_period + 1` consecutive admissions of one service span at least
+`refresh_period`. -/
+theorem each_service_log_span (cfg : Cfg) (hk : cfg.kind = .slog) (hL : 1 ≤ cfg.limit) (hP : 1 ≤ cfg.period)
+    (ops : List FOp) (k : Nat) (s : State) (h : lookup (frun cfg ops).insts k = some s) (i : Nat)
+    (hi : i + cfg.limit < (s.admits.map Prod.snd).length) :
+    (s.admits.map Prod.snd)[i]'(by omega) + cfg.period ≤ (s.admits.map Prod.snd)[i + cfg.limit] := by
+  obtain ⟨ops', rfl⟩ := frun_reach cfg ops k s h
+  exact log_span cfg hk hL hP ops' i hi
+
+/-- The preset constructors (`RateLimiterLayer::per_second(n)`, `per_minute(n)`, `burst(rate, burst)`) and the
+builder's defaults, with their documented configurations, meet the hypotheses of the theorems of this file and of
+`C15` whenever the resulting limit is at least one, in either tick (`u` ticks per millisecond, `u ≥ 1`). -/
+theorem presets_meet_hypotheses (u n rate b : Nat) (hu : 1 ≤ u) (hn : 1 ≤ n) (hr : 1 ≤ rate + b) :
+    (1 ≤ (scale u (perSecond n)).limit ∧ 1 ≤ (scale u (perSecond n)).period ∧ (scale u (perSecond n)).kind = .fixed) ∧
+    (1 ≤ (scale u (perMinute n)).limit ∧ 1 ≤ (scale u (perMinute n)).period ∧ (scale u (perMinute n)).kind = .fixed) ∧
+    (1 ≤ (scale u (burst rate b)).limit ∧ 1 ≤ (scale u (burst rate b)).period ∧ (scale u (burst rate b)).kind = .counter) ∧
+    (1 ≤ (scale u builderDefaults).limit ∧ 1 ≤ (scale u builderDefaults).period) := by
+  have h1 : ∀ p, 1 ≤ p → 1 ≤ p * u := fun p hp => Nat.le_trans hu (Nat.le_mul_of_pos_left u (by omega))
+  exact ⟨⟨hn, h1 1000 (by omega), rfl⟩, ⟨hn, h1 60000 (by omega), rfl⟩, ⟨hr, h1 1000 (by omega), rfl⟩,
+    ⟨Nat.le_of_ble_eq_true rfl, h1 1000 (by omega)⟩⟩
+
+/-- `per_second(n)`: at most `n` admissions in each of the limiter's windows, which are at least 1000 ms apart. -/
+theorem per_second_windows (n : Nat) (hn : 1 ≤ n) (ops : List Op) :
+    Cut 1000 n (run (perSecond n) ops).lim.wins ∧
+    flat (run (perSecond n) ops).lim.wins = (run (perSecond n) ops).admits.map Prod.snd :=
+  fixed_windows (perSecond n) rfl hn (Nat.le_of_ble_eq_true rfl) ops
+
+/-- `burst(rate, burst)`: at most `rate + burst` admissions in each of the sliding counter's buckets of 1000 ms. -/
+theorem burst_windows (rate b : Nat) (hr : 1 ≤ rate + b) (ops : List Op) :
+    Cut 1000 (rate + b) (run (burst rate b) ops).lim.wins ∧
+    flat (run (burst rate b) ops).lim.wins = (run (burst rate b) ops).admits.map Prod.snd :=
+  counter_windows (burst rate b) rfl hr (Nat.le_of_ble_eq_true rfl) ops
+
+/-- Non-vacuity (two services from one layer, limit 1, period 100, fixed). Service 0 is built at t = 0 and admits
+caller 1; caller 2 finds its window used up. Service 1 is built at t = 30 by its first caller (3) and admits it at
+once — its window is its own, and runs from 30 to 130: at t = 100 caller 4 (service 1) is rejected while caller 5
+(service 0, new window at 100) is admitted; at t = 130 service 1 admits caller 6. The calls of the wrapped
+service are numbered through the case. -/
+example :
+    let cfg : Cfg := { kind := .fixed, limit := 1, period := 100, timeout := 0 }
+    ftrace cfg [.arrive 0 1 ⟨0, .ok⟩, .poll 1 false false, .arrive 0 2 ⟨0, .ok⟩, .poll 2 false false, .adv 30,
+      .arrive 1 3 ⟨0, .ok⟩, .poll 3 false false, .adv 70, .arrive 1 4 ⟨0, .ok⟩, .poll 4 false false,
+      .arrive 0 5 ⟨0, .ok⟩, .poll 5 false false, .adv 30, .arrive 1 6 ⟨0, .ok⟩, .poll 6 false false]
+    = [.innerCall 1 0, .innerDone 1 0 .ok, .result 1 (.ok 0), .result 2 .rateLimited,
+       .innerCall 3 1, .innerDone 3 1 .ok, .result 3 (.ok 1), .result 4 .rateLimited,
+       .innerCall 5 2, .innerDone 5 2 .ok, .result 5 (.ok 2),
+       .innerCall 6 3, .innerDone 6 3 .ok, .result 6 (.ok 3)] := by decide
+
+/-- Non-vacuity (readiness of the wrapped service, scripted: pending, then an error): callers 1 and 2 are turned
+away before `call` — the second with the wrapped service's error — and take nothing; caller 3 gets the only permit. -/
+example :
+    let cfg : Cfg := { kind := .slog, limit := 1, period := 100, timeout := 0 }
+    ftrace cfg [.ready ['p', 'e'], .arrive 0 1 ⟨0, .ok⟩, .arrive 0 2 ⟨0, .ok⟩, .arrive 0 3 ⟨0, .ok⟩,
+      .poll 3 false false]
+    = [.result 1 .notReady, readyErrEv 2, .result 2 .notReady,
+       .innerCall 3 0, .innerDone 3 0 .ok, .result 3 (.ok 0)] := by decide
+
 /-- Non-vacuity (wrapped service busy across three windows, limit 1, fixed): the callers of the
 busy windows are turned away without a permit, so when the wrapped service is ready again only one
 call reaches it — nothing was banked. -/
